@@ -27,19 +27,39 @@ impl V {
             _ => None,
         }
     }
+    /// the value through one of the documented conversions (which one depends on the value, so that
+    /// every conversion is travelled by the ordinary requests); they all give the same `Value`
     pub fn to_msi(&self) -> msi::Value {
         match self {
             V::Null => msi::Value::Null,
-            V::Int(n) => msi::Value::Int(*n),
-            V::Str(s) => msi::Value::Str(s.clone()),
+            V::Int(n) => match n.rem_euclid(5) {
+                0 if *n >= i16::MIN as i32 && *n <= i16::MAX as i32 => msi::Value::from(*n as i16),
+                1 if *n >= 0 && *n <= u16::MAX as i32 => msi::Value::from(*n as u16),
+                2 => msi::Value::from(*n),
+                3 if *n == 0 || *n == 1 => msi::Value::from(*n == 1),
+                _ => msi::Value::Int(*n),
+            },
+            V::Str(s) => match s.len() % 3 {
+                0 => msi::Value::from(s.as_str()),
+                1 => msi::Value::from(s.clone()),
+                _ => msi::Value::Str(s.clone()),
+            },
         }
     }
+    /// read through the accessors, which must agree with the variant
     pub fn of_msi(v: &msi::Value) -> V {
-        match v {
+        let by_accessors = match (v.is_null(), v.is_int(), v.is_str(), v.as_int(), v.as_str()) {
+            (true, false, false, None, None) => V::Null,
+            (false, true, false, Some(n), None) => V::Int(n),
+            (false, false, true, None, Some(s)) => V::Str(s.to_string()),
+            _ => V::Str("\u{1}ACCESSORS-DISAGREE".into()),
+        };
+        let by_variant = match v {
             msi::Value::Null => V::Null,
             msi::Value::Int(n) => V::Int(*n),
             msi::Value::Str(s) => V::Str(s.clone()),
-        }
+        };
+        if by_accessors == by_variant { by_variant } else { V::Str("\u{1}ACCESSORS-DISAGREE".into()) }
     }
     pub fn truthy(&self) -> bool {
         match self {
@@ -107,6 +127,7 @@ impl E {
         use msi::Expr as X;
         match self {
             E::Lit(V::Null) => X::null(),
+            E::Lit(V::Int(n)) if *n == 1 || *n == 0 => X::boolean(*n == 1),
             E::Lit(V::Int(n)) => X::integer(*n),
             E::Lit(V::Str(s)) => X::string(s.clone()),
             E::Col(n) => X::col(n.clone()),
